@@ -101,6 +101,7 @@ theorem store_on_side0 (name ext : Str) (kind flag : Nat) (data : Bytes) (hname 
 def Storable (w : Tape.World) (src : Str) (data : Bytes) : Prop :=
   basename (upper src) ≠ str "--EOS" ∧ w (splitSource src).2.2.2 = some data
   ∧ (splitSource src).1.length ≤ 8 ∧ (splitSource src).2.1.length ≤ 3 ∧ CleanSrc src
+  ∧ ((splitSource src).1 ++ (splitSource src).2.1).any (· ≥ 128) = false
 
 def batchBlocks (items : List (Str × Bytes)) : Nat := (items.map fun p => reqBlocks p.2.length).sum
 
@@ -118,8 +119,8 @@ theorem injLoop_side0 (w : Tape.World) : ∀ (items : List (Str × Bytes)) (st :
   | cons p rest ih =>
     intro st B S hcur hall hroom
     obtain ⟨src, data⟩ := p
-    obtain ⟨hne, hw, h8, h3, hclean⟩ := hall (src, data) (by simp)
-    dsimp only at hne hw h8 h3 hclean
+    obtain ⟨hne, hw, h8, h3, hclean, hascii⟩ := hall (src, data) (by simp)
+    dsimp only at hne hw h8 h3 hclean hascii
     have hname := splitSource_name_clean src hclean
     simp only [List.map_cons, injLoop]
     rw [if_neg hne]
@@ -137,7 +138,7 @@ theorem injLoop_side0 (w : Tape.World) : ∀ (items : List (Str × Bytes)) (st :
       dsimp only
       rw [hw]
       dsimp only
-      rw [if_neg (Nat.not_lt.mpr h8), if_neg (Nat.not_lt.mpr h3), hs1]
+      rw [if_neg (Nat.not_lt.mpr h8), if_neg (Nat.not_lt.mpr h3), if_neg (by rw [hascii]; simp), hs1]
     rw [hfile]
     dsimp only
     rw [if_neg (by simp [hc1])]
@@ -204,14 +205,14 @@ theorem create_small_batch (w : Tape.World) (verbose : Bool) (items : List (Str 
       ∧ ImgOk st.img ∧ fileCount st.img = items.length
       ∧ (∀ k, 1 ≤ k → k < 4 → st.img.getD k [] = freshSide) := by
   obtain ⟨st, hst, hok, _, _⟩ := performCore_files w verbose _ (items.map (·.1)) fresh_img_ok
-    (fun s hs => by obtain ⟨p, hp, rfl⟩ := List.mem_map.mp hs; exact (hall p hp).2.2.2.2)
+    (fun s hs => by obtain ⟨p, hp, rfl⟩ := List.mem_map.mp hs; exact (hall p hp).2.2.2.2.1)
   refine ⟨st, hst, hok, ?_⟩
   -- the image is the one the sources loop leaves
   obtain ⟨s1, hl, hc1, _, hcount, _, hsides⟩ := injLoop_side0 w items
     { img := (List.replicate 4 blankSide).map initFileSystem, cur := 0, l := mute } 0 0 rfl hall
     (by simpa using fresh_room (batchBlocks items) items.length hB hS)
   have hclean : ∀ s ∈ items.map (·.1), CleanSrc s := fun s hs => by
-    obtain ⟨p, hp, rfl⟩ := List.mem_map.mp hs; exact (hall p hp).2.2.2.2
+    obtain ⟨p, hp, rfl⟩ := List.mem_map.mp hs; exact (hall p hp).2.2.2.2.1
   have himgeq : st.img = s1.img := performCore_img w verbose _ _ st s1 fresh_img_ok hclean hst hl
   rw [himgeq]
   refine ⟨?_, ?_⟩
